@@ -210,6 +210,6 @@ def check(F, R, tier):
 
 LEVEL_TEXT = ("Decides on all CFG paths the step order of notify and wait, the SeqCst class and constants of the notification flag protocol, "
               "the single skip condition of the trigger, id provenance in reset_all and the blocking class of every trigger back-end method. "
-              "Necessary conditions of no-lost-wake-up/no-phantom; interleaving-level behaviour is not decided.")
+              "Necessary conditions of no-lost-wake-up/no-phantom; Also: the notifier's fan-out loop ranges over every connection slot, failed bit CASes are retried. Interleaving-level behaviour is not decided.")
 LEVEL_NOTE = "Trusted: rustc MIR; protocol table of DESIGN.md C05. Not decided: behaviour over schedules; weak-memory adequacy of the relaxed bit-set accesses (noted in DESIGN.md)."
 TECHNIQUE = "static analysis: MIR dominance, ordering/constant-argument rules, path rules on the skip condition, sibling cross-check of trigger back-ends"
